@@ -544,7 +544,15 @@ func verdictSummary(i *Instance) string {
 
 // judge replays findings and witnesses natively and classifies.
 func (c *CheckRun) judge() {
+	c.judgeInsts(c.Insts, 0)
+}
+
+// judgeInsts replays findings and witnesses of the given instances natively and classifies them.
+// A confirmed violation that matches a known finding is not counted; its instance is solved again
+// with that class excluded, so a different violation of the same property is still reported.
+func (c *CheckRun) judgeInsts(insts []*Instance, depth int) {
 	known := loadKnown()
+	var reruns []*Instance
 	type pending struct {
 		inst *Instance
 		f    *Finding
@@ -552,7 +560,7 @@ func (c *CheckRun) judge() {
 	}
 	var pend []pending
 	var wit []pending
-	for _, inst := range c.Insts {
+	for _, inst := range insts {
 		for k, n := range inst.EndMsgs {
 			if strings.HasPrefix(k, "enginebug") {
 				c.Broken = append(c.Broken, fmt.Sprintf("%s: %s (x%d)", inst.Key(), firstLine(k), n))
@@ -613,7 +621,7 @@ func (c *CheckRun) judge() {
 		return
 	}
 	os.MkdirAll(filepath.Join(evidenceDir(), "replays"), 0755)
-	nviol := 0
+	nviol := len(c.Violations)
 	doneFinding := map[*Finding]bool{}
 	lastMiss := map[*Finding]string{}
 	for i, p := range pend {
@@ -648,6 +656,15 @@ func (c *CheckRun) judge() {
 			}
 		}
 		if isKnown {
+			if depth < 3 {
+				for ki := range known {
+					if known[ki].matches(c.Spec.ID, p.inst, p.f) {
+						ni := &Instance{Harness: p.inst.Harness, Args: p.inst.Args, Lang: p.inst.Lang, CheckPanics: p.inst.CheckPanics,
+							MaxWitnesses: 0, Exclude: append(append([]ExcludeCond{}, p.inst.Exclude...), known[ki].Match.Cond...)}
+						reruns = append(reruns, ni)
+					}
+				}
+			}
 			continue
 		}
 		if nviol >= 12 {
@@ -690,6 +707,11 @@ func (c *CheckRun) judge() {
 		} else {
 			c.ValidMis = append(c.ValidMis, p.inst.Key()+": "+mis)
 		}
+	}
+	if len(reruns) > 0 {
+		runInstances(c.P, reruns, c.Cfg, c.Stats)
+		c.Extra["instances_resolved_with_known_class_excluded"] = len(reruns)
+		c.judgeInsts(reruns, depth+1)
 	}
 }
 
